@@ -1,8 +1,11 @@
 use crate::common::Ctx;
 use crate::report::Report;
 
+pub mod diff;
 pub mod handles;
 pub mod hist;
+pub mod more;
+pub mod names;
 
 pub fn dispatch(ctx: &Ctx, rep: &mut Report) -> bool {
     match ctx.prop.as_str() {
@@ -12,6 +15,11 @@ pub fn dispatch(ctx: &Ctx, rep: &mut Report) -> bool {
         "C06" => handles::run_c06(ctx, rep),
         "C07" => handles::run_c07(ctx, rep),
         "C08" => handles::run_c08(ctx, rep),
+        "C09" => names::run_c09(ctx, rep),
+        "C10" => more::run_c10(ctx, rep),
+        "C15" => more::run_c15(ctx, rep),
+        "C17" => more::run_c17(ctx, rep),
+        "C18" => diff::run_c18(ctx, rep),
         _ => return false,
     }
     true
